@@ -28,4 +28,4 @@ def generate_core(rng, tier):
 def generate(rng, tier):
     """the component-level cases, then the clause seen through the whole request/reply pipeline"""
     import pipeline, focus
-    return generate_core(rng, tier) + pipeline.guided_cases(rng, 400 if tier == 'thorough' else 30, pipeline.exchange_history, 'xchg')
+    return generate_core(rng, tier) + focus.mppe_multi_cases(rng, 120 if tier == 'thorough' else 12) + pipeline.guided_cases(rng, 400 if tier == 'thorough' else 30, pipeline.exchange_history, 'xchg')
